@@ -385,6 +385,50 @@ def r14_4_5(rep: Report) -> None:
             rep.fail('R14.5', c2, label, f'expected `{needle}` in the out-of-band listing', mc)
 
 
+def r14_6(rep: Report) -> None:
+    """the [start, end) window of a segment in the event timebase: both bounds must be the
+    same conversion applied to representation-timebase bounds.  floor(a*k/n) + floor(d*k/n) can be
+    one less than floor((a+d)*k/n): converting start and duration separately leaves one-tick holes
+    between consecutive segments, and an event on such a tick is delivered by no segment."""
+    rid = 'R14.6'
+    rel = f'{EV}/repeating_event_base.py'
+    tree = rep.repo.tree(rel)
+    cls = need(find_class(tree, 'RepeatingEventBase'), 'RepeatingEventBase')
+    fn = need(find_func(cls, 'create_emsg_boxes'), 'create_emsg_boxes')
+    construct = f'{rel}::RepeatingEventBase.create_emsg_boxes'
+    # last definition of seg_end before the loop
+    loop = [n for n in ast.walk(fn) if isinstance(n, ast.While)][0]
+    defs = [n for n in ast.walk(fn) if isinstance(n, ast.Assign) and norm(n.targets[0]) == 'seg_end'
+            and n.lineno < loop.lineno]
+    if not defs:
+        raise AnalysisError('create_emsg_boxes: seg_end is not computed before the loop')
+    last = sorted(defs, key=lambda n: n.lineno)[-1]
+
+    def floordivs(e: ast.AST, depth: int = 0) -> int:
+        """number of separately floored terms summed in e (through local definitions)"""
+        if isinstance(e, ast.BinOp) and isinstance(e.op, ast.FloorDiv):
+            return 1
+        if isinstance(e, ast.BinOp) and isinstance(e.op, (ast.Add, ast.Sub)):
+            return floordivs(e.left, depth) + floordivs(e.right, depth)
+        if isinstance(e, ast.Name) and depth < 3:
+            ds = [n for n in ast.walk(fn) if isinstance(n, ast.Assign) and norm(n.targets[0]) == e.id
+                  and n.lineno < last.lineno]
+            if ds:
+                return floordivs(sorted(ds, key=lambda n: n.lineno)[-1].value, depth + 1)
+        return 0
+    k = floordivs(last.value)
+    if k >= 2:
+        rep.fail(rid, construct, 'window end converted as one quantity',
+                 f'`{norm(last)}` adds {k} separately floor-divided terms: floor is not additive, so '
+                 'the windows of consecutive segments do not tile the event timeline (a one-tick hole '
+                 'can swallow an event)', last)
+    elif k == 1:
+        rep.ok(rid, construct, 'window end converted as one quantity', norm(last))
+    else:
+        rep.note(f'R14.6: seg_end = `{norm(last.value)}` - conversion form not recognised; not decided')
+        rep.ok(rid, construct, 'window end converted as one quantity', 'form not recognised (not decided)')
+
+
 def analyse(rep: Report) -> None:
     rep.explanation = (
         'Layout extraction (E4) over the SCTE-35 codec classes, the MPEG section table and '
@@ -399,6 +443,7 @@ def analyse(rep: Report) -> None:
     rep.rule('R14.3', 'emsg time field follows the box version', floor=5)
     rep.rule('R14.4', 'event loop step and divisions are guarded positive', floor=3)
     rep.rule('R14.5', 'out-of-band listing shape', floor=6)
+    rep.rule('R14.6', 'segment window end is converted to the event timebase as one quantity', floor=1)
     idx = Index(rep.repo, 'dashlive')
     rels = sorted(r for r in idx.by_rel if r.startswith(SCTE + '/')) + ['dashlive/mpeg/section_table.py']
     layout_rule(rep, idx, 'R14.1', rels, 12)
@@ -407,3 +452,4 @@ def analyse(rep: Report) -> None:
     r14_2(rep, idx)
     r14_3(rep, idx)
     r14_4_5(rep)
+    r14_6(rep)
